@@ -3,6 +3,8 @@ FILE = 'ipp/src/payload.rs'
 
 OPS = [
     {'op': 'prelude', 'text': '#[allow(unused_imports)] use vstd::prelude::*;'},
-    {'op': 'wrap', 'items': ['struct IppPayload']},
+    {'op': 'wrap', 'items': ['struct IppPayload', 'impl IppPayload'], 'others': 'external', 'named': ['empty']},
     {'op': 'item_attr', 'item': 'struct IppPayload', 'text': '#[verifier::external_body]'},
+    {'op': 'fn', 'path': 'IppPayload::empty', 'ret': 'r', 'attrs': ['#[verifier::external_body]'],
+     'spec': '    ensures crate::verif_spec::payload_is_empty(r),'},
 ]
